@@ -91,6 +91,17 @@ GROUPS["writer_digits"] = dict(_WRITER_COMMON, **{
     ],
 })
 
+GROUPS["writer_digits_wide"] = dict(_WRITER_COMMON, **{
+    "name": "writer_digits_wide",
+    "params": {"quick": {"WCAP": 44, "MAXS": 2}, "thorough": {"WCAP": 44, "MAXS": 2}},
+    "flags": ["-Z", "stubbing", "--default-unwind", "5"],
+    "harnesses": [
+        (n, {"cost": 4, "props": ["C11", "C14"], "what": "write::text::ascii_digits::<%s>: the space reserved in the buffer covers the decimal text of EVERY value at every fill level (itoap replaced by its contract: writes exactly the text's length); stream accounting exact on fast and cold path" % n.split("_")[-1]})
+        for n in ["digits_reserve_i8", "digits_reserve_u16", "digits_reserve_i32", "digits_reserve_u32", "digits_reserve_i64", "digits_reserve_u64",
+                  "digits_reserve_isize", "digits_reserve_usize", "digits_reserve_i128", "digits_reserve_u128"]
+    ],
+})
+
 # --------------------------------------------------------------------------------------------
 # engine R (reader model) + T0 harnesses for flussab::text
 
@@ -566,14 +577,14 @@ PROPERTIES["C16"] = {
 
 PROPERTIES["C11"] = {
     "level": "model_checking",
-    "groups": ["writer_step", "writer_digits"],
+    "groups": ["writer_step", "writer_digits", "writer_digits_wide"],
     "claim": "Bounded model checking (SAT) of one inductive step per operation of the real DeferredWriter from an arbitrary invariant-satisfying state (buffer content and fill level, parked error or not) against nondeterministic sink stubs; a symbolic witness stream position proves in-order, exactly-once delivery for every position at once; integer formatting is checked for all values of the 8- and 16-bit types.",
     "level_note": "Buffer capacity is WCAP (the real constant is 16 KiB; the code is capacity-generic, the harness builds the struct with a small capacity); slices up to MAXS >= 2*WCAP+1 bytes; sinks: accept-all, one short write + one Interrupted, failing at an arbitrary call. 32/64/128-bit formatting is outside: itoap (external crate) uses SSE2 intrinsics there (simd_cast), which Kani cannot encode. Trusted: Kani/CBMC/cadical.",
     "functions": ["DeferredWriter::{write_all_defer_err, write_all_defer_err_cold, flush_defer_err, buf_write_ptr, advance_unchecked, check_io_error, Write::write, Write::write_all, Write::flush, Drop::drop}", "flussab::write::text::{ascii_digits, ascii_digits_cold}", "itoap::{write_to_ptr, write} (as compiled)"],
     "explanation": "Step induction on the real writer: Inv = (base + buf.len() == written, the buffer holds the most recently written bytes, a byte already seen by the sink lies below the buffer, with a never-failing sink every byte below the buffer has been seen). Each operation is run once with arbitrary arguments; the sink stub checks the byte arriving as stream offset W and that it arrives once; with a failing sink: writes return Ok, the error is reported exactly once by the next flush/check_io_error, the sink is not called while an error is parked.",
     "bounds_note": "capacity WCAP, slice length <= MAXS, at most one Interrupted and one short write per operation",
-    "outside": ["sink panics (the `panicked` flag)", "32/64/128-bit integer formatting (itoap SIMD path, not encodable by Kani)", "capacities other than WCAP (code is generic in the capacity)"],
-    "assumptions": ["Write stub honours the Write contract (accepts 1..=len bytes or fails)"],
+    "outside": ["sink panics (the `panicked` flag)", "digit CONTENT of 32/64/128-bit integers (itoap SIMD path, not encodable by Kani; their length/reservation/accounting is covered against itoap's contract)", "capacities other than WCAP (code is generic in the capacity)"],
+    "assumptions": ["Write stub honours the Write contract (accepts 1..=len bytes or fails)", "itoap::write_to_ptr / itoap::write produce exactly the canonical decimal text (checked for 8/16-bit types by digits_*; assumed for wider types)"],
 }
 
 PROPERTIES["C02"] = {
@@ -590,7 +601,7 @@ PROPERTIES["C02"] = {
 
 PROPERTIES["C14"] = {
     "level": "model_checking",
-    "groups": ["reader_step", "writer_step", "text_t0", "btor2_token_t0"],
+    "groups": ["reader_step", "writer_step", "text_t0", "btor2_token_t0", "writer_digits_wide"],
     "claim": "Bounded model checking of the real unsafe reader/writer code with CBMC's pointer, bounds and validity checks enabled, from arbitrary invariant-satisfying states (so call histories are covered by induction); the state is additionally checked AT the point where each documented panic diverges, which is what a caller observes after catch_unwind.",
     "level_note": "Panic paths cannot be continued in Kani, so 'after a caught panic' is encoded as 'the memory-safety invariant holds at the panic point' via cfg(kani) hooks injected into the scratch copy; bounds as for C02/C11; AddressSanitizer runs are outside this technique.",
     "functions": ["DeferredReader::{advance, advance_cold, advance_with_buf, request_more (load-bearing assert), buf, buf_ptr, request_byte_at_offset}"],
